@@ -14,34 +14,41 @@ CHECKS = {
             "exception-surface monitor + CPU-time budget in sandboxed workers over fixtures/generated documents x byte-, ZIP- and markup-aware mutations x 5 entry points",
             "Each of the 21 extractors is driven with unmutated, truncated, bit-flipped, spliced, container-aware-mutated and cross-format inputs, directly and through read_file, the CLI "
             "(text/--json/--json-unit/--binary), as archive member (zip/tar/tgz) and as e-mail attachment; the worker records the escaping exception's MRO, results yielded before, process CPU time "
-            "and the CLI's exit status/stdout/stderr. Anything outside the ExtractionError family, a CLI contract breach, a dead interpreter or CPU > 10x(2 s + 4 us/byte) is a violation.",
-            "Termination is restated as bounded progress on CPU time; inputs <= 3 MB; RLIMIT_AS 1.5 GiB per worker.",
+            "and the CLI's exit status/stdout/stderr. Anything outside the ExtractionError family, a CLI contract breach, a dead interpreter, CPU > 10x(2 s + 4 us/byte), or a worker that sleeps without using CPU until the deadline (blocked forever: self-deadlock) is a violation; the CLI is also run "
+            "against a narrow (ASCII) stdout, and its diagnostic must be one line (the program-name line and nothing after it). Hand-made hostile containers (self-referential 7z headers, "
+            "counts that cannot be allocated, hrefs that leave the container, member names with line breaks, equations nested 48 deep through every operand slot) complement the mutations.",
+            "Termination is restated as bounded progress on CPU time plus the blocked-forever verdict at a 150 s wall deadline; inputs <= 3 MB; RLIMIT_AS 1.5 GiB per worker.",
             "DESIGN.md §8 C01"),
     "C02": ("exploration",
             "ground-truth document generators with unique class-tagged tokens; token oracle (multiset/order/gluing/leakage) over get_full_text() of the real extractors in sandboxed workers",
             "Hand-written writers (never the libraries the extractors read with) render random documents whose every text leaf is a unique token; the oracle tokenises "
-            "get_full_text() and decides loss, duplication, reordering, gluing across boundaries, leakage of excluded classes and foreign text. Clean documents must be silent; each risky "
+            "get_full_text() and decides loss, duplication, reordering, gluing across boundaries, leakage of excluded classes and foreign text; where the writer declares every visible non-token string it emits (RTF, DOCX, PPTX, ODT, ODP, ODG, EPUB, HTML, MHTML), what is left of "
+            "the output after tokens, those strings and documented decoration must hold no letter or digit (alien text). Clean documents must be silent; each risky "
             "feature is paired with a control twin. Held on the generated documents only; constructs outside the writers' vocabulary are not covered.",
             "Trusts the writers in vlib/gen (cross-checked by clean cases/twins being silent) and the per-format claim matrix of DESIGN.md Appendix A.",
             "DESIGN.md §8 C02, Appendix A"),
     "C03": ("exploration",
             "ground-truth multi-unit documents; oracle over iterate_units(): count, 1-based strictly increasing numbers, per-unit token attribution, join equality",
             "Generated documents with 1..N pages/slides/sheets (incl. empty ones) and heading structures; every token must be returned by exactly the unit it belongs to "
-            "(heading tokens may be covered by heading paths), unit numbers must be the 1-based source positions, and get_full_text() must equal the trimmed newline-join for the formats the property lists.",
+            "(heading tokens may be covered by heading paths), unit numbers must be the 1-based source positions, and get_full_text() must equal the trimmed newline-join for the formats the property lists - also for every boolean option of get_full_text()/iterate_units() "
+            "(found by introspection), exercised on one object as default-set-default and set-default-set: same option value, same text.",
             "Same generators as C02; flowing-text formats may produce one unit or one per heading section.",
             "DESIGN.md §8 C03, Appendix A"),
     "C04": ("exploration",
             "icontract post-conditions installed reflectively on every accessor of every data_types class; workload of fixtures, generated and mutated-but-accepted inputs x path-argument grammar",
             "Record-only icontract post-conditions (text accessors return UTF-8-encodable str, unit/image numbers are positive ints, get_bytes() is a binary stream at position 0 of the reported size, "
             "get_dim() equals the table shape) are evaluated on every accessor call of every result, unit, image and table the workload produces; accessors that raise, file metadata not derived "
-            "from the path argument (9 path forms incl. None, non-existent, unicode, archive!/member, existing file) and textual document properties differing from what the generator stored are reported.",
+            "from the path argument (9 path forms incl. None, non-existent, unicode, archive!/member, existing file) and textual document properties differing from what the generator stored are reported; all image streams of a result are also opened first and read afterwards (no shared stream "
+            "objects, same bytes as when read alone), and archive members' folder/path must lie below '<archive path>!'.",
             "Contracts observe only classes the workload reaches (17 content classes required, else inconclusive); properties compared per DESIGN.md Appendix B.",
             "DESIGN.md §8 C04, Appendix B"),
     "C05": ("exploration",
             "round-trip monitor: json.dumps(to_json()) -> from_json -> to_json on every result and unit of the corpus, type-directed instances of every registered dataclass, binary-exclusion walk, CLI JSON comparison",
             "Every result and unit produced from fixtures and generated documents (incl. every risky feature) is serialised with the standard encoder, rebuilt and compared (type, canonical JSON, full text, "
             "units, tables, binary payloads); include_binary=False may differ only at the binary leaves found by walking the object graph; --json/--json-unit/--binary output is compared with the same JSON; "
-            "each registered dataclass is instantiated from its type hints with marker-vocabulary strings and round-tripped.",
+            "each registered dataclass is instantiated from its type hints with marker-vocabulary strings (incl. strings a constructor normalises, zero-length payloads) and round-tripped; "
+            "binary fields are compared as objects (kind and bytes) after the round trip, the path argument is given as str / pathlib.Path / None for existing and non-existing names, "
+            "and the CLI writes to a strict UTF-8 stream.",
             "Fields that differ between two fresh in-process extractions (C06's findings) are masked in the CLI comparison so C05 does not re-report them.",
             "DESIGN.md §8 C05"),
     "C06": ("exploration",
@@ -62,7 +69,8 @@ CHECKS = {
             "For OOXML-in-OLE (EncryptionInfo/EncryptedPackage/DataSpaces), ODF manifest encryption-data (two namespace spellings) and look-alike plain manifests, DOC FIB flag, XLS FILEPASS at three record positions, "
             "PPT encrypted-summary streams, ZIP flag bit on first/last/only member, 7z AES coder in the main folder / one of several folders / the encoded header, EPUB encryption.xml / rights.xml / empty encryption.xml, "
             "PDF RC4-40/128 and AES-128/256 with empty and non-empty user password (owner password distinct or equal), and the 11 protected fixtures: the protected member must raise the file-encrypted error before any result through the direct extractor, "
-            "read_file, the CLI and, as typed attachment of an .eml, through iterate_supported_attachments(); the plain member must never be rejected as encrypted; an empty-password PDF must extract the same text/units/images as its original.",
+            "read_file, the CLI and, as typed attachment of an .eml, through iterate_supported_attachments(); the plain member must never be rejected as encrypted; an empty-password PDF (a third of them carrying a 20-120 KB picture) must extract the same text/units/images as its original. Wrong-container look-alikes (OLE2 under OOXML/ODF names, "
+            "ZIP under legacy names, PDF/RTF under Office names), DOCTYPE manifests with marker words in member paths and ZIP members in an undecodable compression method must not be rejected as encrypted.",
             "Protected OOXML/legacy files are marker containers, not real ciphertext (the property is about rejection before content); PDFs are really encrypted (pypdf writer over the reference AES).",
             "DESIGN.md §8 C08"),
     "C09": ("exploration",
@@ -95,13 +103,15 @@ CHECKS = {
             "DESIGN.md §8 C12"),
     "C13": ("exploration",
             "ground-truth tables (token cells and typed values) vs iterate_tables()/get_dim() of the real extractors",
-            "Generated r x c grids with empty cells, multi-paragraph cells, header rows, typed spreadsheet values; compared cell by cell (tokens / value equality), table count/order and get_dim().",
+            "Generated r x c grids with empty cells, multi-paragraph and list cells, header rows, merged cells (continuation cells are grid cells), nested tables (also inside content controls), "
+            "typed spreadsheet values (numbers in every spelling, booleans, dates in the 1900 and 1904 systems, times, durations); compared cell by cell (tokens / value equality), table count/order and get_dim().",
             "Same generators as C02.",
             "DESIGN.md §8 C13"),
     "C14": ("exploration",
             "generated PNG/JPEG/GIF/BMP files embedded by hand-written writers; sha1/type/size/number/unit oracle over iterate_images() and unit.get_images()",
             "Every placed image must come back bit-exact, in document order, numbered 1..n, with the right content type, pixel size (where the format reports the file's own size) and on the right unit; "
-            "unit-level images must be a sub-view of the document iterator and coincide for page/slide/sheet formats.",
+            "unit-level images must be a sub-view of the document iterator and coincide for page/slide/sheet formats. JPEGs come in six segment layouts, pictures are shared between pages/slides/sheets, "
+            "stored under untyped or upper-case names, sized in every ODF length unit, anchored without extent, or missing from the package.",
             "Same generators as C02; vlib/gen/images.py writes valid minimal raster containers.",
             "DESIGN.md §8 C14"),
     "C15": ("exploration",
@@ -143,7 +153,7 @@ CHECKS = {
             "icontract post-conditions on the real AES mode functions vs an independent FIPS-197 reference; finite tables enumerated",
             "Every call of the real aes_ecb/cbc_encrypt/decrypt (direct, through pypdf's patched bindings and CryptAES) is compared by a "
             "runtime contract with an independently written AES; S-box/inverse/xN tables, ShiftRows positions and a MixColumns GF(2) basis are "
-            "enumerated completely; FIPS-197/SP800-38A known answers; wrapper round-trips for every length 0..64; wrong lengths must raise ValueError. "
+            "enumerated completely; FIPS-197/SP800-38A known answers; wrapper round-trips for every length 0..64; wrong lengths must raise ValueError; four concurrent callers (10 us switch interval) are compared block by block with reference answers. "
             "Held on the sampled (key, iv, message) triples only.",
             "Trusts vlib/gen/aes_ref.py (self-tested against the embedded FIPS known answers on every run) and CPython.",
             "DESIGN.md §8 C20"),
